@@ -5,13 +5,17 @@ import json, os, subprocess
 ROOT = os.path.dirname(os.path.dirname(os.path.abspath(__file__)))
 
 CLAIMED = {
+  "C24": dict(engine="E2 p2psim", level="exploration", design="§4 C24, Appendix A",
+      technique="deterministic simulation of two-party message histories (conformant + Byzantine senders) against spec automata; per-state single-step sweep of every message variant",
+      text="Seeded sessions of simulated peers drive the real State::apply of all 8 P2P protocols; at every reached state every message variant is applied and verdict, successor class and carried data are compared with a spec automaton written from the Ouroboros specification. All (state, message) pairs of the finite tables are reached in every tier; histories are sampled.",
+      note="Trusts the transcription of the specification in sim/src/spec/proto.rs (Leios automata: module docs only). Value-level side conditions are don't-care."),
   "C41": dict(engine="E4 histsim", level="exploration", design="§4 C41",
       technique="deterministic single-actor history simulation: seeded sign/add/remove/serde-restart sequences vs. BTreeMap reference model, minimised replayable tape",
       text="Seeded search over operation histories on real BuiltTransaction values; after every step an independent CBOR walker compares the witness set with the signature map and the reference model, checks body/id stability and verifies signatures. Sampling, not proof; no environment nondeterminism exists for this property, so the simulator contributes only history generation, restart injection, model comparison, minimisation and exact replay.",
       note="Trusts blake2b/ed25519 of pallas-crypto (used on both sides) and the hand-written strict CBOR walker. Single actor; no scheduler/clock/transport."),
 }
 
-PENDING = {k: 'claimed in DESIGN.md; check under construction (not yet registered)' for k in 'C09 C12 C13 C20 C21 C22 C23 C24 C25 C26 C27 C28 C29 C39 C40 C42 C43'.split()}  # id -> reason while a claimed check is still being built
+PENDING = {k: 'claimed in DESIGN.md; check under construction (not yet registered)' for k in 'C09 C12 C13 C20 C21 C22 C23 C25 C26 C27 C28 C29 C39 C40 C42 C43'.split()}  # id -> reason while a claimed check is still being built
 
 NA = {
  "C01": "Flat encoder/decoder are in-memory functions of a value sequence; bit alignment depends on the values written, not on any schedule, stream, clock or fault.",
